@@ -22,12 +22,21 @@ from props.C22 import Agg, Harness, Runner, build_class, case_key, chunked, obse
 
 ALPHABET = ["a", " ", "\t", "'", '"', "\\", "$", "*", ";", "é"]
 K_RETOK = "value-contains-whitespace-quote-or-backslash-retokenised"
+K_BRACE = "value-contains-brace-in-templated-argstr-formatted-twice"
+K_BRACKET = "square-bracket-in-value-next-to-space-or-comma-eaten-by-argstr-cleanup"
+
+
+# further characters a shell-like tokeniser may treat specially (comment, pipe, redirect, grouping,
+# history, glob, brace, assignment, newline ...): each alone and surrounded by / next to ordinary letters
+EXTRA = ["#", "|", "&", "<", ">", "(", ")", "!", "~", "{", "}", "[", "]", "?", "=", "%", "@", ":", ",", "`", "^", "\n", "-", "+"]
 
 
 def strings(maxlen=3):
     out = []
     for n in range(1, maxlen + 1):
         out += ["".join(t) for t in itertools.product(ALPHABET, repeat=n)]
+    for c in EXTRA:
+        out += [c, "a" + c, c + "a", "a" + c + "a", c + c, "a" + c + "a" + c + "a"]
     return out
 
 
@@ -68,6 +77,34 @@ def classify(case, vals, got, exp):
     character that a POSIX shell tokeniser treats specially (white space, quote, backslash) AND
     (b) the damage is confined to such characters / argument boundaries (or the quoting error)"""
     elems = [e for n, e in S.supplied_elements(case["fields"], vals, case["append_args"]) if n != "append_args"]
+    # second narrow class: a value containing a brace goes through str.format once more when the field's
+    # argstr is a template ('-a {a}', '--a={a}'): ValueError about the format string, nothing is executed
+    templated = any("{" in (f.get("argstr") or "") for f in case["fields"])
+    if (
+        templated
+        and any(("{" in e or "}" in e) for e in elems)
+        and not any(set(e) & S.RETOKENISE_CHARS for e in elems)
+        and (
+            (isinstance(got, list) and len(got) >= 3 and got[0] == "error" and got[1] == "ValueError" and any(m in str(got[2]) for m in ("format string", "expected '}'", "Single '", "in field name")))
+            # or a doubled brace silently collapsed into one ('{{' -> '{'): everything else unchanged
+            or (isinstance(got, list) and any(isinstance(x, list) and [str(t).replace("{{", "{").replace("}}", "}") for t in x] == got for x in exp))
+        )
+    ):
+        return K_BRACE
+    # third narrow class: after substituting the values, argstr_formatting removes "[ " -> "[", " ]" -> "]",
+    # "[," -> "[" and ",]" -> "]" (meant for emptied optional '[...]' parts of an argstr), which also eats the
+    # space / separator next to a '[' or ']' that belongs to a supplied VALUE
+    def _cleanup(t):
+        return t.replace("[ ", "[").replace(" ]", "]").replace("[,", "[").replace(",]", "]")
+
+    if (
+        templated
+        and any(("[" in e or "]" in e) for e in elems)
+        and not any(set(e) & S.RETOKENISE_CHARS for e in elems)
+        and isinstance(got, list)
+        and any(isinstance(x, list) and _cleanup(" ".join(map(str, x))).split(" ") == got for x in exp)
+    ):
+        return K_BRACKET
     if not any(set(e) & S.RETOKENISE_CHARS for e in elems):
         return None
     return K_RETOK if S.only_tokeniser_damage(got, exp) else None
@@ -159,7 +196,7 @@ def run(ctx):
     with Runner(ctx, procs=ctx.pick(8, 16)) as R:
         dom = ctx.domain(
             "alphabet-strings-in-placements",
-            bound=f"all {len(allstr)} strings of length 1..3 over the 10-character alphabet x {len(PLACEMENTS)} placements ({', '.join(PLACEMENTS)})",
+            bound=f"all strings of length 1..3 over the 10-character alphabet plus, for each of {len(EXTRA)} further shell-special characters c, the strings c, ac, ca, aca, cc, acaca ({len(allstr)} strings) x {len(PLACEMENTS)} placements ({', '.join(PLACEMENTS)})",
             rule="one case per (placement, string); non-trivial = the string contains a character other than 'a'",
             exhaustive=True,
         )
